@@ -18,6 +18,15 @@ from harness import dasshutil as du
 SB = 5.670374419e-8
 
 
+def gap_material(rng):
+    """bond in the fuel-clad gap: liquid sodium, or a fill gas (conductivity two orders lower and rising with temperature,
+    where the surface-temperature iteration has real work to do)"""
+    if rng.random() < 0.5:
+        return dassh.Material('sodium'), "sodium"
+    a = rng.uniform(0.04, 0.09)
+    return dassh.Material('fill_gas', coeff_dict={'thermal_conductivity': np.array([a, rng.uniform(2e-4, 5e-4), -3.7e-8])}), "gas"
+
+
 def make_pin(rng):
     from dassh.pin_model import PinModel
     D = rng.uniform(0.005, 0.012)
@@ -27,18 +36,19 @@ def make_pin(rng):
     nz = rng.randint(1, 5)
     annular = rng.random() < 0.25
     rf = sorted(set([0.0 if not annular else round(rng.uniform(0.1, 0.3), 3)] + [round(rng.uniform(0.2, 0.95), 4) for _ in range(nz - 1)]))
+    gmat, gkind = gap_material(rng) if gap > 0 else (None, "none")
     if rng.random() < 0.7:
         params = dict(htc_params_clad=[0.023, 0.8, 0.4, 7.0], gap_thickness=gap, r_frac=rf,
                       pu_frac=[round(rng.uniform(0.0, 0.3), 3) for _ in rf], zr_frac=[round(rng.uniform(0.05, 0.2), 3) for _ in rf],
                       porosity=[round(rng.uniform(0.0, 0.3), 3) for _ in rf])
-        pm = PinModel(D, tc, clad, fuel_params=params, gap_mat=dassh.Material('sodium') if gap > 0 else None)
+        pm = PinModel(D, tc, clad, fuel_params=params, gap_mat=gmat)
         kind = "metal"
     else:
         mats = [du.const_material('f%d' % i, k=rng.uniform(2, 25)) for i in range(len(rf))]
         params = dict(htc_params_clad=[0.023, 0.8, 0.4, 7.0], gap_thickness=gap, r_frac=rf, pin_material=mats)
-        pm = PinModel(D, tc, clad, pin_params=params, gap_mat=dassh.Material('sodium') if gap > 0 else None)
+        pm = PinModel(D, tc, clad, pin_params=params, gap_mat=gmat)
         kind = "user"
-    return pm, dict(D=D, clad_thickness=tc, gap=gap, r_frac=rf, kind=kind, annular=annular)
+    return pm, dict(D=D, clad_thickness=tc, gap=gap, gap_bond=gkind, r_frac=rf, kind=kind, annular=annular)
 
 
 MODEL_REQ = []
@@ -106,6 +116,19 @@ def check_relations(ctx, pm, info, q, Tc, h, dz, T):
         return "clad-midwall", "clad OD -> mid-wall drop %.6g differs from q' ln(r_o/r_m)/(2 pi k) = %.6g" % (T[2] - T[1], want_mw)
     if pm.gap['dr'] == 0.0 and T[4] != T[3]:
         return "gap", "no gap but fuel surface temperature differs from clad inner temperature"
+    if pm.gap['dr'] > 0.0:
+        # conduction (mean conductivity of the bond at the two surface temperatures) + grey-body radiation carry the pin's heat
+        import copy
+        gm = copy.deepcopy(pm.gap['k'].__self__) if hasattr(pm.gap['k'], '__self__') else None
+        kg = (lambda t: float(pm.gap['k'](t)))
+        rf_out = info['D'] / 2 - info['clad_thickness'] - info['gap']
+        kavg = 0.5 * (kg(T[4]) + kg(T[3]))
+        flux = q / (2 * math.pi * rf_out)
+        closed = T[3] + pm.gap['dr'] * (flux - pm.fuel['e'] * SB * (T[4] ** 4 - T[3] ** 4)) / kavg
+        ctx.count("gap_balance_checked:" + info.get('gap_bond', '?'))
+        if abs(T[4] - closed) > 5e-3 + 1e-4 * abs(T[4] - T[3]):
+            return "gap-balance", ("fuel surface temperature %.6f K: conduction + radiation across the %s-bonded gap would need %.6f K "
+                                   "(clad inner surface %.6f K)" % (T[4], info.get('gap_bond'), closed, T[3]))
     if info['r_frac'][-1] != 1.0:
         cl, qd, shells = fuel_chain(pm, info, q, T[4])
         if cl is not None:
